@@ -597,8 +597,11 @@ def _main(mod, prop, args, seed, t0):
         "violations": violations,
     }
     if not args.replay:
-        os.makedirs(os.path.join(VERIF, "evidence"), exist_ok=True)
-        with open(os.path.join(VERIF, "evidence", f"{prop}.json"), "w") as f:
+        # evidence/ only ever describes runs against /repo itself; runs against a scratch worktree
+        # (VERIF_REPO, used to try seeded changes) leave it alone
+        evdir = os.path.join(VERIF, "evidence") if os.path.realpath(REPO) == "/repo" else "/tmp/verif_scratch_evidence"
+        os.makedirs(evdir, exist_ok=True)
+        with open(os.path.join(evdir, f"{prop}.json"), "w") as f:
             json.dump(ev, f, indent=1, default=str)
     for l in sorted(known_lines):
         print(l)
